@@ -422,6 +422,8 @@ def c20(ctx):
         if r is None:
             continue
         _, head, kv, flags = parse_kv(r)
+        if kv.get('wrap', 'same').startswith('DIFF'):
+            out.append((cid, 'FlatWrap::default_in_place behaves differently from default_in_place: %s' % kv['wrap']))
         if head != 'ok':
             continue
         n += 1
